@@ -1129,11 +1129,12 @@ func textBalance(s string) balance {
 }
 
 type balanceCtx struct {
-	w     *World
-	m     *matrix
-	memo  map[*ssa.Function]*balance // nil entry while in progress / undecidable
-	state map[*ssa.Function]int      // 0 unknown, 1 in progress, 2 done, 3 undecidable
-	why   map[*ssa.Function]string
+	w       *World
+	m       *matrix
+	memo    map[*ssa.Function]*balance // nil entry while in progress / undecidable
+	state   map[*ssa.Function]int      // 0 unknown, 1 in progress, 2 done, 3 undecidable
+	assumed map[*ssa.Function]bool     // assumed balanced while in progress (recursion)
+	why     map[*ssa.Function]string
 }
 
 // valueBalance: the net bracket count of the text a value denotes: constants, concatenations, Sprintf formats, and the result of
@@ -1188,6 +1189,14 @@ func (bc *balanceCtx) valueBalance(v ssa.Value, depth int) (balance, bool) {
 		}
 		name := f.String()
 		switch {
+		case name == "(*strings.Builder).String" || name == "(*bytes.Buffer).String":
+			// the content of a local builder: everything written into it in this function
+			if al, ok := valueRoot(x.Call.Args[0]).(*ssa.Alloc); ok {
+				if b := bc.builderBalance(x.Parent(), al); b != nil {
+					return *b, true
+				}
+			}
+			return balance{}, false
 		case name == "fmt.Sprintf" || name == "fmt.Sprint" || name == "fmt.Sprintln":
 			total := balance{}
 			okAll := true
@@ -1197,6 +1206,25 @@ func (bc *balanceCtx) valueBalance(v ssa.Value, depth int) (balance, bool) {
 				okAll = okAll && ok
 			}
 			return total, okAll
+		case name == "strings.Join":
+			// the pieces of the joined list are counted where they are collected; the separator must be neutral
+			if len(x.Call.Args) == 2 {
+				sep, ok := bc.valueBalance(x.Call.Args[1], depth+1)
+				if ok && sep == (balance{}) {
+					if isStringSlice(x.Call.Args[0].Type()) {
+						if c2, isCall := stripIdentity(x.Call.Args[0]).(*ssa.Call); isCall {
+							if g := c2.Call.StaticCallee(); g != nil && bc.w.isSubjectFunc(g) && g.Blocks != nil {
+								if b := bc.funcBalance(g); b != nil {
+									return *b, true // a helper returning the collected pieces
+								}
+								return balance{}, false
+							}
+						}
+					}
+					return balance{}, true
+				}
+			}
+			return balance{}, false
 		case strings.HasPrefix(name, "strings.") || strings.HasPrefix(name, "strconv.") || strings.Contains(name, "strcase."):
 			total := balance{}
 			okAll := true
@@ -1210,7 +1238,7 @@ func (bc *balanceCtx) valueBalance(v ssa.Value, depth int) (balance, bool) {
 			}
 			return total, okAll
 		case bc.w.isSubjectFunc(f) && f.Blocks != nil:
-			if !isStringish(x.Type()) {
+			if !isStringish(x.Type()) && !isStringSlice(x.Type()) {
 				return balance{}, true
 			}
 			b := bc.funcBalance(f)
@@ -1260,6 +1288,63 @@ func (bc *balanceCtx) valueBalance(v ssa.Value, depth int) (balance, bool) {
 		return balance{}, true
 	}
 	return balance{}, true // loads, parameters, field reads: names, numbers, type spellings
+}
+
+// builderBalance: the net bracket count of what fn writes into one local builder, when it is the same on every path.
+func (bc *balanceCtx) builderBalance(fn *ssa.Function, al *ssa.Alloc) *balance {
+	delta := map[*ssa.BasicBlock]balance{}
+	for _, s := range bc.m.sitesOfX(fn, true) {
+		c, ok := s.instr.(ssa.CallInstruction)
+		if !ok || len(c.Common().Args) == 0 || valueRoot(c.Common().Args[0]) != ssa.Value(al) {
+			continue
+		}
+		b, okv := bc.valueBalance(s.val, 0)
+		if !okv {
+			return nil
+		}
+		delta[s.instr.Block()] = delta[s.instr.Block()].add(b)
+	}
+	return propagateBalance(fn, delta)
+}
+
+// propagateBalance: forward propagation of per-block deltas; nil when two paths disagree.
+func propagateBalance(fn *ssa.Function, delta map[*ssa.BasicBlock]balance) *balance {
+	in := map[*ssa.BasicBlock]*balance{}
+	zero := balance{}
+	in[fn.Blocks[0]] = &zero
+	work := []*ssa.BasicBlock{fn.Blocks[0]}
+	for len(work) > 0 {
+		b := work[0]
+		work = work[1:]
+		out := in[b].add(delta[b])
+		for _, sc := range b.Succs {
+			if cur, seen := in[sc]; seen {
+				if *cur != out {
+					return nil
+				}
+				continue
+			}
+			o := out
+			in[sc] = &o
+			work = append(work, sc)
+		}
+	}
+	var result *balance
+	for _, b := range fn.Blocks {
+		if _, isRet := b.Instrs[len(b.Instrs)-1].(*ssa.Return); !isRet || in[b] == nil {
+			continue
+		}
+		out := in[b].add(delta[b])
+		if result == nil {
+			result = &out
+		} else if *result != out {
+			return nil
+		}
+	}
+	if result == nil {
+		result = &zero
+	}
+	return result
 }
 
 // paramUses: in how many emitted pieces of fn the parameter occurs.
@@ -1323,7 +1408,12 @@ func (bc *balanceCtx) funcBalance(fn *ssa.Function) *balance {
 	switch bc.state[fn] {
 	case 2:
 		return bc.memo[fn]
-	case 1, 3:
+	case 1:
+		// recursion: induction hypothesis "the recursive call is balanced"; checked when the outer computation finishes
+		bc.assumed[fn] = true
+		z := balance{}
+		return &z
+	case 3:
 		return nil
 	}
 	bc.state[fn] = 1
@@ -1381,6 +1471,11 @@ func (bc *balanceCtx) funcBalance(fn *ssa.Function) *balance {
 	if result == nil {
 		result = &zero
 	}
+	if bc.assumed[fn] && *result != zero {
+		bc.state[fn] = 3
+		bc.why[fn] = "a recursive emitter whose own text has a net bracket count of " + result.String()
+		return nil
+	}
 	bc.state[fn] = 2
 	bc.memo[fn] = result
 	return result
@@ -1391,7 +1486,7 @@ func (bc *balanceCtx) funcBalance(fn *ssa.Function) *balance {
 // that produce whole files are balanced.
 func wireBracketBalance(w *World, wc *wireCtx, r *Report, prop string, roles map[string]bool) {
 	rule := prop + "/bracket-balance"
-	bc := &balanceCtx{w: w, m: wc.m, memo: map[*ssa.Function]*balance{}, state: map[*ssa.Function]int{}, why: map[*ssa.Function]string{}}
+	bc := &balanceCtx{w: w, m: wc.m, memo: map[*ssa.Function]*balance{}, state: map[*ssa.Function]int{}, why: map[*ssa.Function]string{}, assumed: map[*ssa.Function]bool{}}
 	n := 0
 	for _, ga := range anchorTable {
 		for _, fn := range wc.anchors[ga.Lang]["own"] {
@@ -1414,4 +1509,45 @@ func wireBracketBalance(w *World, wc *wireCtx, r *Report, prop string, roles map
 		}
 	}
 	_ = n
+	// every file handed back by a generator (an entry of its map[string][]byte) is balanced
+	nFiles := 0
+	for _, ga := range anchorTable {
+		for _, fn := range wc.anchors[ga.Lang]["own"] {
+			cnt := 0
+			forEachInstr(fn, func(b *ssa.BasicBlock, ins ssa.Instruction) {
+				mu, ok := ins.(*ssa.MapUpdate)
+				if !ok || mu.Map.Type().Underlying().String() != "map[string][]byte" {
+					return
+				}
+				isTestFile := false
+				for _, c := range stringConsts(mu.Key) {
+					if strings.Contains(strings.ToLower(c), "test") {
+						isTestFile = true
+					}
+				}
+				if !(roles["test"] && roles["code"]) && isTestFile != roles["test"] {
+					return
+				}
+				cnt++
+				nFiles++
+				key := fmt.Sprintf("%s: file #%d written by %s is bracket-balanced", ga.Lang, cnt, fnKey(fn))
+				v := stripIdentity(mu.Value)
+				if cv, ok := v.(*ssa.Convert); ok {
+					v = stripIdentity(cv.X)
+				}
+				bal, okv := bc.valueBalance(v, 0)
+				switch {
+				case !okv:
+					r.pass(rule, key, w.instrPos(ins), "not judged: the file's text is assembled in a way the balance count cannot follow")
+				case bal == (balance{}):
+					r.pass(rule, key, w.instrPos(ins), "")
+				default:
+					r.fail(rule, key, w.instrPos(ins), "the text of this file has a net bracket count of "+bal.String()+" on every path: a closing or opening bracket is missing from the emitted program")
+				}
+			})
+		}
+	}
+	if nFiles == 0 {
+		r.fail(rule, "generated files found", "internal/parser", "no store into a map[string][]byte found under the generators")
+	}
 }
